@@ -38,6 +38,14 @@ def harness_env_policy(aname):
     return envd, lambda: MLPActorCriticPolicy(envd, key=jr.key(0), **ac)
 
 
+def wide_policy(aname, env):
+    if aname.startswith("DQN"):
+        return MLPQPolicy(env, width_size=512, depth=2, key=jr.key(0))
+    if aname.startswith("SAC"):
+        return MLPSACPolicy(env, feature_size=2, width_size=512, depth=2, key=jr.key(0))
+    return MLPActorCriticPolicy(env, key=jr.key(0), feature_size=2, feature_width=512, feature_depth=2, value_width=2, value_depth=1, action_width=2, action_depth=1)
+
+
 def float_hyperparameters(cls):
     """constructor arguments with a float default: (name, default, perturbed value)"""
     import inspect
@@ -235,6 +243,15 @@ def check_purity(ck, aname, algo, env, mkpol):
                         walk(jj)
     walk(tr.jaxpr)
     ck.fact(f"purity.no_donation.{aname}", not donated, f"donated arguments in: {donated}")
+    # the same with a WIDE policy (a 512 x 512 float32 weight = 1 MiB): buffer donation schemes that only hand over large parameter buffers are invisible
+    # on the tiny harness policy.  Only the program structure is inspected (nothing is interpreted or run).
+    donated.clear()
+    wide = wide_policy(aname, env)
+    with stubs.prng_stubs():
+        trw = trace(lambda env, pol, k: algo.learn(env, pol, T, key=k, callback=cb), env, wide, jr.key(0), argnames=["env", "pol", "key"], label=f"{aname}.learn with a wide policy")
+    walk(trw.jaxpr)
+    big = max((int(np.prod(a.shape)) * np.dtype(a.dtype).itemsize for a in trw.in_avals if "key" not in str(a.dtype)), default=0)
+    ck.fact(f"purity.no_donation.{aname}@wide_policy", not donated and big >= (1 << 20), f"largest input leaf {big} bytes; donated arguments in: {donated}")
     tr2 = mk()
     same = str(tr.jaxpr) == str(tr2.jaxpr) and len(tr.consts) == len(tr2.consts) and all(np.array_equal(np.asarray(a), np.asarray(b)) if not jax.dtypes.issubdtype(getattr(a, "dtype", np.float32), jax.dtypes.prng_key) else True for a, b in zip(tr.consts, tr2.consts))
     ck.fact(f"purity.retrace_equal.{aname}", same, "two independent traces of learn() give the same program and the same captured constants (no Python-side state)")
